@@ -58,6 +58,10 @@ func parseArg(a string) rt.Value {
 			panic("bad string arg " + a)
 		}
 		return rt.StringValue(string(b))
+	case a == "t":
+		return rt.TableValue(rt.NewTable()) // any table (argument-type cases)
+	case a[0] == 'f':
+		return hx.ParseValue(a) // f<16 hex digits of the IEEE bits>
 	case a[0] == 'i':
 		h := a[1:]
 		neg := false
